@@ -146,6 +146,16 @@ CLAIMED.update({
             "Bounds: alphabet {a, b, blank, tab, line break, XML-special, non-ASCII}; exhaustive 2x2 tables of 1-character cells and "
             "single cells of <= 3 characters x all 32 feature subsets; simulation up to 6 rows x 8 cells; the ODF writer is trusted.",
             "DESIGN.md section 5, C15"),
+    "C16": ("TLA+ spec Excel.tla (Render per cell kind; 1900 date system computed two independent ways; excel_rows as a row "
+            "machine with padding and sheet selection): TLC exhaustive over the cell pool and over ragged 2x2 sheets x 1..3 sheets x "
+            "requested sheet 1..4; every workbook is written with xlsxwriter and read through rowio.excel_rows and cutplace.rows; "
+            "string tables through XlsxRowWriter and back",
+            "TLC checks ReadsTheRequestedSheet and DatesConsistent (closed-formula serial->civil mapping vs. counting month "
+            "lengths on every date used); replay compares every cell text, the padding and the sheet that was read, and requires a "
+            "data-format error for a missing sheet. The D3 counterexample is kept (ReadsRequestedSheet = FALSE).",
+            "Cell pool: strings, whole numbers up to 2^53 as digit sequences, dyadic fractions with <= 4 fractional bits, booleans, "
+            "18 boundary dates 1900-03-01..9999-12-31, 10 times of day; arbitrary floats are not decided (no floating point in TLC).",
+            "DESIGN.md section 5, C16"),
 })
 
 NOT_BUILT = "check not built yet in this round (planned: see DESIGN.md section 5)"
